@@ -23,6 +23,7 @@
                                  q parent of d, q not x, q not a descendant of x} - and must agree as such: B[r] = In(r), N[p,r] = In(p),
                                  D[p,r] = In(r) without (p, r).  (Sibling agreement: an edit to one instance that is not made to the
                                  others makes GBP converge to a wrong fixed point on region graphs deep enough to tell them apart.)
+  total-stored / none-test   the oracle constructors store the caller's total as it is; a None default is tested by comparison with None (0 is a legal total)
 Not decided: exactness on acyclic structures as a numerical statement (only the agreement of the message sets above).
 """
 import ast
